@@ -323,6 +323,12 @@ def loss_new(sess, op, step, out, stats, log):
     except core.RunTimeout:
         raise
     except Exception as e:
+        if type(e).__name__ == "InputError" and len(set(op["obs_t"])) < len(op["obs_t"]):
+            # replicated observation times: the constructor integrates with a method chosen from the
+            # Jacobian's eigenvalues, and dopri5 / vode refuse a zero-length step.  PyGOM says so with
+            # an InputError; such a grid is then outside what it accepts (observation, not a verdict)
+            stats["replicated_times_refused"] = stats.get("replicated_times_refused", 0) + 1
+            return
         out.append(core.crash_failure(op.get("prop", "C06"), e, step, "constructing %s" % op["cls"]))
         return
     sess.loss[op["id"]] = obj
@@ -409,6 +415,10 @@ def integration_failure_outside_domain(sess, d, free, exc, stats):
     solution, a negative state - rates have denominators like 1+S - or an exploding one)."""
     if type(exc).__name__ != "IntegrationError":
         return False
+    if len(set(d["obs_t"])) < len(d["obs_t"]):
+        # a zero-length step between replicated observation times is refused by dopri5 / vode
+        stats["replicated_times_refused"] = stats.get("replicated_times_refused", 0) + 1
+        return True
     try:
         theta, x0 = full_theta(sess, d, list(free))
         X = refsolve.solve(sess.ref, theta, x0, sess.t0, d["obs_t"])
@@ -1026,6 +1036,11 @@ def gen_loss_def(rng, lid, ref, name, theta_true, x0, t0, tmax, box, pos, classe
         if len(ints) >= 3:
             obs_t = [float(v) for v in ints]
             obs_as = rng.choice(["int_array", "int_list"])
+    if rng.random() < 0.15 and len(obs_t) >= 3:
+        # replicate measurements: the same observation time appears more than once
+        for _r in range(rng.randint(1, 2)):
+            j = rng.randrange(0, len(obs_t))
+            obs_t = obs_t[:j + 1] + [obs_t[j]] + obs_t[j + 1:]
     ns = rng.choice([1, 1, 2, 2, 3])
     ns = min(ns, n)
     states = rng.sample(ref.state_names, ns)           # any order
